@@ -165,19 +165,19 @@ Proof.
 Qed.
 
 (** gegv: + sum_j het_ij * d_jk through the class's design *)
-Lemma gegv_entry g gt l v lab i k : shaped g -> gegv g gt l = Some (v, lab) -> (i < length (design g gt))%nat -> (k < g_t g)%nat ->
-  nth k (nth i v []) 0 == nth k (location g) 0 + dotQ (map inject_Z (nth i (design g gt) [])) (col 0 k (gv_effects g))
-  /\ lab = gt_labels gt l /\ length v = length (design g gt).
+Lemma gegv_entry g gt arg l v lab i k : shaped g -> gegv g gt arg l = Some (v, lab) -> (i < length (design g gt arg))%nat -> (k < g_t g)%nat ->
+  nth k (nth i v []) 0 == nth k (location g) 0 + dotQ (map inject_Z (nth i (design g gt arg) [])) (col 0 k (gv_effects g))
+  /\ lab = gt_labels gt l /\ length v = length (design g gt arg).
 Proof.
-  intros S E Hi Hk. unfold gegv in E. destruct (gegv_numpy g (design g gt)) as [w|] eqn:Ew; [|discriminate]. injection E as <- <-.
+  intros S E Hi Hk. unfold gegv in E. destruct (gegv_numpy g (design g gt arg)) as [w|] eqn:Ew; [|discriminate]. injection E as <- <-.
   pose proof (shaped_gv g S) as W.
-  assert (Lw : length w = length (design g gt)).
+  assert (Lw : length w = length (design g gt arg)).
   { unfold gegv_numpy in Ew. destruct (ncols_ok _ _); [|discriminate]. injection Ew as <-. now rewrite matmul_length, qz_length. }
   assert (Rw : rows_len (g_t g) w).
   { unfold gegv_numpy in Ew. destruct (ncols_ok _ _); [|discriminate]. injection Ew as <-. now apply matmul_rows. }
   split; [|split; [reflexivity | unfold addrow; now rewrite map_length]].
   rewrite (addrow_entry (g_t g)); [| exact Rw | now apply location_length | now rewrite Lw | exact Hk].
-  rewrite (gegv_numpy_entry g (design g gt) w i k W Ew Hi Hk). ring.
+  rewrite (gegv_numpy_entry g (design g gt arg) w i k W Ew Hi Hk). ring.
 Qed.
 
 (** the dominance design row: dosages followed by heterozygosity indicators, so that the genotypic value splits into
@@ -185,13 +185,13 @@ Qed.
 Lemma hcat_row {A} (M N : list (list A)) i : (i < length M)%nat -> (i < length N)%nat -> nth i (hcat M N) [] = nth i M [] ++ nth i N [].
 Proof. intros H1 H2. unfold hcat. now apply (nth_map2 (@app A) [] [] []). Qed.
 
-Lemma gegv_dominance_split g gt i k : g_cls g = CAD -> (i < length (dosage gt))%nat ->
+Lemma gegv_dominance_split g gt arg i k : g_cls g = CAD -> (i < length (dosage gt))%nat ->
   length (nth i (dosage gt) []) = length (g_ua g) ->
-  dotQ (map inject_Z (nth i (design g gt) [])) (col 0 k (gv_effects g)) ==
-  dotQ (map inject_Z (nth i (dosage gt) [])) (col 0 k (g_ua g)) + dotQ (map inject_Z (nth i (het gt) [])) (col 0 k (g_ud g)).
+  dotQ (map inject_Z (nth i (design g gt arg) [])) (col 0 k (gv_effects g)) ==
+  dotQ (map inject_Z (nth i (dosage gt) [])) (col 0 k (g_ua g)) + dotQ (map inject_Z (nth i (het gt arg) [])) (col 0 k (g_ud g)).
 Proof.
   intros C Hi L. unfold design, gv_effects. rewrite C.
-  assert (Lh : length (het gt) = length (dosage gt)) by (unfold het; destruct (gt_ploidy gt); now rewrite map_length).
+  assert (Lh : length (het gt arg) = length (dosage gt)) by (unfold het; now rewrite map_length).
   rewrite hcat_row by lia. rewrite map_app, col_app. apply dotQ_app. now rewrite map_length, col_length.
 Qed.
 
@@ -315,10 +315,13 @@ Qed.
 Lemma gt_ploidy_take ix gt : gt_ploidy (gt_take ix gt) = gt_ploidy gt.
 Proof. destruct gt; cbn; try reflexivity. now rewrite map_length. Qed.
 
-Lemma het_take ix gt : gt_ok gt -> in_range (length (dosage gt)) ix -> het (gt_take ix gt) = takes [] ix (het gt).
+Lemma eff_ploidy_take ix gt arg : eff_ploidy (gt_take ix gt) arg = eff_ploidy gt arg.
+Proof. unfold eff_ploidy. now rewrite gt_ploidy_take. Qed.
+
+Lemma het_take ix gt arg : gt_ok gt -> in_range (length (dosage gt)) ix -> het (gt_take ix gt) arg = takes [] ix (het gt arg).
 Proof.
-  intros Hok R. unfold het. rewrite gt_ploidy_take, dosage_take by assumption.
-  destruct (gt_ploidy gt); symmetry; now apply (takes_map _ [] []).
+  intros Hok R. unfold het. rewrite eff_ploidy_take, dosage_take by assumption.
+  symmetry; now apply (takes_map _ [] []).
 Qed.
 
 Lemma hcat_takes {A} ix (M N : list (list A)) : length M = length N -> in_range (length M) ix ->
@@ -328,25 +331,25 @@ Proof.
   apply (nth_map2 (@app A) [] [] []); lia.
 Qed.
 
-Lemma design_take g ix gt : gt_ok gt -> in_range (length (dosage gt)) ix -> design g (gt_take ix gt) = takes [] ix (design g gt).
+Lemma design_take g ix gt arg : gt_ok gt -> in_range (length (dosage gt)) ix -> design g (gt_take ix gt) arg = takes [] ix (design g gt arg).
 Proof.
   intros Hok R. unfold design. destruct (g_cls g); try now apply dosage_take.
   rewrite dosage_take, het_take by assumption. symmetry. apply hcat_takes; [|exact R].
-  unfold het. destruct (gt_ploidy gt); now rewrite map_length.
+  unfold het. now rewrite map_length.
 Qed.
 
-Lemma design_length g gt : length (design g gt) = length (dosage gt).
+Lemma design_length g gt arg : length (design g gt arg) = length (dosage gt).
 Proof.
   unfold design. destruct (g_cls g); try reflexivity. unfold hcat. rewrite map2_length.
-  unfold het. destruct (gt_ploidy gt); rewrite map_length; apply Nat.min_id.
+  unfold het. rewrite map_length; apply Nat.min_id.
 Qed.
 
-Lemma gegv_equivariant g gt l ix v lab : gt_ok gt -> in_range (length (dosage gt)) ix -> gegv g gt l = Some (v, lab) ->
-  gegv g (gt_take ix gt) (lab_take ix l) = Some (takes [] ix v, lab_take ix lab).
+Lemma gegv_equivariant g gt arg l ix v lab : gt_ok gt -> in_range (length (dosage gt)) ix -> gegv g gt arg l = Some (v, lab) ->
+  gegv g (gt_take ix gt) arg (lab_take ix l) = Some (takes [] ix v, lab_take ix lab).
 Proof.
   intros Hok R E. unfold gegv in *. rewrite design_take by assumption.
-  destruct (gegv_numpy g (design g gt)) as [w|] eqn:Ew; [|discriminate]. injection E as <- <-.
-  assert (R' : in_range (length (design g gt)) ix) by (now rewrite design_length).
+  destruct (gegv_numpy g (design g gt arg)) as [w|] eqn:Ew; [|discriminate]. injection E as <- <-.
+  assert (R' : in_range (length (design g gt arg)) ix) by (now rewrite design_length).
   rewrite (gegv_numpy_takes g _ w ix R' Ew). rewrite gt_labels_take. f_equal. f_equal.
   apply addrow_takes. unfold gegv_numpy in Ew. destruct (ncols_ok _ _); [|discriminate]. injection Ew as <-. now rewrite matmul_length, qz_length.
 Qed.
@@ -370,14 +373,14 @@ Proof.
   rewrite (takes_map _ [] []) by exact H. rewrite (takes_map _ [] []) by exact H'. reflexivity.
 Qed.
 
-Lemma predict_equivariant g X gt l ix v lab : gt_ok gt -> in_range (length (dosage gt)) ix -> length X = length (dosage gt) ->
-  predict g X gt l = Some (v, lab) ->
-  predict g (takes [] ix X) (gt_take ix gt) (lab_take ix l) = Some (takes [] ix v, lab_take ix lab).
+Lemma predict_equivariant g X gt arg l ix v lab : gt_ok gt -> in_range (length (dosage gt)) ix -> length X = length (dosage gt) ->
+  predict g X gt arg l = Some (v, lab) ->
+  predict g (takes [] ix X) (gt_take ix gt) arg (lab_take ix l) = Some (takes [] ix v, lab_take ix lab).
 Proof.
   intros Hok R LX E. unfold predict in *. rewrite design_take by assumption.
-  destruct (predict_numpy g X (qz (design g gt))) as [w|] eqn:Ew; [|discriminate]. injection E as <- <-.
+  destruct (predict_numpy g X (qz (design g gt arg))) as [w|] eqn:Ew; [|discriminate]. injection E as <- <-.
   unfold qz. rewrite <- (takes_map (map inject_Z) [] []) by (now rewrite design_length).
-  fold (qz (design g gt)). rewrite (predict_numpy_takes g X _ w ix) by (rewrite ?LX; assumption). now rewrite gt_labels_take.
+  fold (qz (design g gt arg)). rewrite (predict_numpy_takes g X _ w ix) by (rewrite ?LX; assumption). now rewrite gt_labels_take.
 Qed.
 
 (** ** additivity over a partition of the markers *)
@@ -436,18 +439,43 @@ Proof.
     rewrite (HPr (nth i P [])), (R (nth i (ph_sum n p ph) [])); [reflexivity| |]; apply nth_In; rewrite ?ph_sum_length; assumption || lia.
 Qed.
 
-(** ** the raw-array heterozygosity coding (dosage == 1) agrees with the matrix coding exactly for diploid data *)
-Lemma het_raw_diploid a : (0 <= a <= 2)%Z -> het_raw1 a = het1 2 a.
-Proof. intros H. unfold het_raw1, het1. assert (a = 0 \/ a = 1 \/ a = 2)%Z as [->|[->| ->]] by lia; reflexivity. Qed.
+(** ** the dominance design of a raw dosage array *)
+(** a raw array handed over with its ploidy gets the design of the matrix object holding the same data, whatever the ploidy;
+    without the keyword it is read as diploid *)
+Lemma het_raw_vs_matrix (m : zmat) (k : Z) arg : het (GRaw m) (Some k) = het (GUnphased k m) arg.
+Proof. reflexivity. Qed.
+Lemma het_raw_default (m : zmat) arg : het (GRaw m) None = het (GUnphased 2 m) arg.
+Proof. reflexivity. Qed.
+Lemma het_raw_vs_phased n p ph arg : het (GRaw (dosage (GPhased n p ph))) (Some (Z.of_nat (length ph))) = het (GPhased n p ph) arg.
+Proof. reflexivity. Qed.
 
-Lemma het_raw_not_polyploid : exists ploidy a : Z, (0 <= a <= ploidy)%Z /\ het_raw1 a <> het1 ploidy a.
+Lemma design_raw_vs_matrix g (m : zmat) (k : Z) arg : design g (GRaw m) (Some k) = design g (GUnphased k m) arg.
+Proof. unfold design. now rewrite (het_raw_vs_matrix m k arg). Qed.
+
+(** hence every method that goes through the design returns the same values for the two kinds of input *)
+Lemma raw_vs_matrix_methods g (m : zmat) (k : Z) arg l X Y :
+  option_map fst (gegv g (GRaw m) (Some k) l) = option_map fst (gegv g (GUnphased k m) arg l) /\
+  option_map fst (predict g X (GRaw m) (Some k) l) = option_map fst (predict g X (GUnphased k m) arg l) /\
+  score g Y X (GRaw m) (Some k) = score g Y X (GUnphased k m) arg /\
+  var_G g (GRaw m) (Some k) = var_G g (GUnphased k m) arg.
+Proof.
+  unfold gegv, predict, score, var_G. rewrite (design_raw_vs_matrix g m k arg). repeat split.
+  - now destruct (gegv_numpy g (design g (GUnphased k m) arg)).
+  - now destruct (predict_numpy g X (qz (design g (GUnphased k m) arg))).
+Qed.
+
+(** the indicator is 1 exactly on the dosages strictly between 0 and the ploidy *)
+Lemma het1_spec ploidy a : (0 <= a <= ploidy)%Z -> (het1 ploidy a = 1%Z <-> (0 < a < ploidy)%Z) /\ (het1 ploidy a = 0%Z <-> (a = 0 \/ a = ploidy)%Z).
+Proof. intros H. unfold het1. destruct (Z.eqb_spec a 0), (Z.eqb_spec a ploidy); cbn; split; split; intros; try lia; try discriminate. Qed.
+
+(** regression witness: the FORMER raw-array coding (dosage == 1) agreed with the matrix coding exactly for diploid data (so the
+    repair changes nothing there) and for no other ploidy *)
+Definition old_het_raw1 (a : Z) : Z := if (a =? 1)%Z then 1%Z else 0%Z.
+Lemma old_het_raw_diploid a : (0 <= a <= 2)%Z -> old_het_raw1 a = het1 2 a.
+Proof. intros H. unfold old_het_raw1, het1. assert (a = 0 \/ a = 1 \/ a = 2)%Z as [->|[->| ->]] by lia; reflexivity. Qed.
+
+Lemma old_het_raw_not_polyploid : exists ploidy a : Z, (0 <= a <= ploidy)%Z /\ old_het_raw1 a <> het1 ploidy a.
 Proof. exists 4%Z, 2%Z. split; [lia|]. cbn. discriminate. Qed.
 
-Lemma het_raw_not_haploid : exists a : Z, (0 <= a <= 1)%Z /\ het_raw1 a <> het1 1 a.
+Lemma old_het_raw_not_haploid : exists a : Z, (0 <= a <= 1)%Z /\ old_het_raw1 a <> het1 1 a.
 Proof. exists 1%Z. split; [lia|]. cbn. discriminate. Qed.
-
-Lemma het_raw_vs_matrix_diploid (m : zmat) : Forall (Forall (fun a => 0 <= a <= 2)%Z) m -> het (GRaw m) = het (GUnphased 2 m).
-Proof.
-  intros H. unfold het. cbn [gt_ploidy dosage]. apply map_ext_in. intros r Hr. apply map_ext_in. intros a Ha.
-  rewrite Forall_forall in H. specialize (H r Hr). rewrite Forall_forall in H. now apply het_raw_diploid, H.
-Qed.
